@@ -634,6 +634,12 @@ def finish(prop, tier, seed, t0, log, results, undecided, bdir, keep):
         'violations': len(lines),
     }
     evdir = os.environ.get('VERIF_EVIDENCE_DIR', os.path.join(ROOT, 'evidence'))
+    if n_obl == 0 and n_bounded > 0:
+        # nothing here is a discharged contract obligation: a bounded stand-in is not a proof
+        ev['level'] = 'other'
+        ev['coverage']['explanation'] = ('bounded stand-in only (CBMC with --unwind and unwinding assertions on explicitly built states of the real lowered code): '
+                                         '%d of %d bounded obligations hold within the stated bounds; nothing is counted as proved' % (n_bounded_dis, n_bounded))
+        ev['coverage'].pop('obligations'); ev['coverage'].pop('discharged')
     os.makedirs(evdir, exist_ok=True)
     json.dump(ev, open(os.path.join(evdir, prop + '.json'), 'w'), indent=1)
     if not keep and not lines and not undecided and os.path.exists(bdir):
